@@ -101,6 +101,10 @@ def run(prop, tier):
     if prop in ("C02", "C03"):
         from checks import osustack
         osustack.run_stack(res, tier, binp)
+    # ---- catch conversion (CatchConvert.tla): counts of the regular (take = k) and the gradual counter, RNG consumption
+    if prop == "C14":
+        from checks import catchconv
+        catchconv.run_catch(res, tier, binp)
     # ---- implementation -> specification: recorded traces validated by TLC
     trace = os.path.join(common.OUT, "gradual_trace_%s_%s_%d.ndjson" % (prop, tier, os.getpid()))
     p = common.run_harness(binp, ["gradual-record", trace, "--tier", tier])
